@@ -1,10 +1,16 @@
 #!/bin/bash
-# usage: tools/try_mutation.sh <patch.diff> <Cxx> [Cyy ...]   — apply to /repo, run quick checks, always revert
+# usage: tools/try_mutation.sh <patch.diff> <Cxx> [Cyy ...]
+# Applies the patch to a scratch worktree of /repo's HEAD (outside /repo and /verif), runs the quick checks
+# against it (VERIF_REPO), writing evidence/replays to a scratch directory, then removes the worktree.
 patch="$(realpath "$1")"; shift
+tag="$(basename "$(dirname "$patch")")_$$"
+wt="/tmp/mut_$tag"
 cd /verif
-git -C /repo apply "$patch" || { echo "PATCH DOES NOT APPLY"; exit 2; }
-trap 'git -C /repo checkout -- . ' EXIT
+git -C /repo worktree add --detach "$wt" HEAD -q || exit 2
+trap 'git -C /repo worktree remove --force "$wt" 2>/dev/null; rm -rf "/tmp/mutev_$tag"' EXIT
+git -C "$wt" apply "$patch" || { echo "PATCH DOES NOT APPLY"; exit 2; }
 for p in "$@"; do
   echo "=== $p under $(basename $(dirname $patch))"
-  ./bin/check "$p" --tier quick 2>&1 | grep -E "VIOLATION|KNOWN-FINDING|tier=|violation x|proof failure" | head -12
+  VERIF_REPO="$wt" VERIF_EVIDENCE_DIR="/tmp/mutev_$tag/evidence" VERIF_REPLAY_DIR="/tmp/mutev_$tag/replays" ./bin/check "$p" --tier quick 2>&1 \
+     | grep -E "VIOLATION|KNOWN-FINDING|tier=|violation x|proof failure|mismatch" | tail -6 | cut -c1-400
 done
